@@ -7,7 +7,7 @@ use crate::report::{par_run, Report};
 use crate::rng::Rng;
 use serde_json::json;
 
-pub const RULE: &str = "Constructor calls observed under catch_unwind: every single-period constructor for every period 0..=4096 (exhaustive), every multi-period constructor (SLOW 2 periods, MACD/PPO 3 periods) for all tuples over 0..=24 (exhaustive), boundary periods {2^31, 2^32, 2^53+1, usize::MAX-1, usize::MAX} in every period slot of the allocation-free indicators (EMA, ATR, RSI, KC, MACD, PPO, and SLOW's EMA period), sampled large periods up to 2^22 for windowed ones, multipliers {0,-2,1e300,NaN,-0.0,2.5}. Oracle: Err(InvalidParameter) iff some period argument is 0, else Ok, never a panic; period()/multiplier() (bitwise) and Display == NAME(params) immediately, after a stream of next calls, and after reset; Default::default() has the documented parameters and produces bit-identical outputs to new(defaults). Non-trivial: every (indicator, period tuple, multiplier) constructor call is a distinct case; the enumerated part is exhaustive.";
+pub const RULE: &str = "Constructor calls observed under catch_unwind: every single-period constructor for every period 0..=4096 (exhaustive), every multi-period constructor (SLOW 2 periods, MACD/PPO 3 periods) for all tuples over 0..=24 (exhaustive), boundary periods {2^31, 2^32, 2^53+1, usize::MAX-1, usize::MAX} in every period slot of the allocation-free indicators (EMA, ATR, RSI, KC, MACD, PPO, and SLOW's EMA period), sampled large periods up to 2^22 for windowed ones, multipliers {0,-2,1e300,NaN,-0.0,2.5}. Oracle: Err(InvalidParameter) iff some period argument is 0, else Ok, never a panic; period()/multiplier() (bitwise) and Display == NAME(params) immediately, after a stream of next calls, and after reset; Default::default() has the documented parameters and produces the same outputs as new(defaults) (1e-12 relative; bit-identity reported). Non-trivial: every (indicator, period tuple, multiplier) constructor call is a distinct case; the enumerated part is exhaustive.";
 
 const BOUNDARY: [usize; 5] = [1usize << 31, 1usize << 32, (1usize << 53) + 1, usize::MAX - 1, usize::MAX];
 const MULTS: [f64; 6] = [0.0, -2.0, 1e300, f64::NAN, -0.0, 2.5];
@@ -220,7 +220,12 @@ fn run_defaults(ctx: &Ctx) -> Report {
             let (ra, rb) = (d.apply(&op), n.apply(&op));
             rep.evaluations += 1;
             let same = match (&ra, &rb) {
-                (Res::Out(x), Res::Out(y)) => x.bits_eq(y),
+                (Res::Out(x), Res::Out(y)) => {
+                    if !x.bits_eq(y) {
+                        rep.count("defaults.equal_within_1e-12_but_not_bitwise");
+                    }
+                    crate::inst::out_rel_close(x, y, 1e-12)
+                }
                 _ => ra == rb,
             };
             if !same {
